@@ -1072,6 +1072,35 @@ gen_premaster_done:
 }
 # endif /* USE_CLIENT_SIDE_SSL */
 
+# if defined(USE_STATELESS_SESSION_TICKETS) && defined(USE_SERVER_SIDE_SSL)
+/*
+    Does the server's ChangeCipherSpec/Finished flight start with a
+    NewSessionTicket?  It does when the client asked for a ticket, and when
+    DTLS sends again a flight that had one: the client was promised the ticket
+    and hashed it, so the resent flight must carry the same message (the copy
+    writeNewSessionTicket keeps in ssl->sid->sessionTicket)
+ */
+static int sendsNewSessionTicket(ssl_t *ssl)
+{
+    if (ssl->sid == NULL)
+    {
+        return 0;
+    }
+    if (ssl->sid->sessionTicketState == SESS_TICKET_STATE_RECVD_EXT)
+    {
+        return 1;
+    }
+#  ifdef USE_DTLS
+    if (ACTV_VER(ssl, v_dtls_any) && ssl->retransmit == 1 &&
+        ssl->sid->sessionTicket != NULL)
+    {
+        return 1;
+    }
+#  endif
+    return 0;
+}
+# endif
+
 /******************************************************************************/
 /*
     We indicate to the caller through return codes in sslDecode when we need
@@ -1834,8 +1863,7 @@ ok:
 # if defined(USE_STATELESS_SESSION_TICKETS) && defined(USE_SERVER_SIDE_SSL)
         if (ssl->flags & SSL_FLAGS_SERVER)
         {
-            if (ssl->sid &&
-                (ssl->sid->sessionTicketState == SESS_TICKET_STATE_RECVD_EXT))
+            if (sendsNewSessionTicket(ssl))
             {
                 messageSize += ssl->recordHeadLen +
                     ssl->hshakeHeadLen + matrixSessionTicketLen() + 6;
@@ -1882,8 +1910,7 @@ ok:
 # if defined(USE_STATELESS_SESSION_TICKETS) && defined(USE_SERVER_SIDE_SSL)
         if (ssl->flags & SSL_FLAGS_SERVER)
         {
-            if (ssl->sid &&
-                (ssl->sid->sessionTicketState == SESS_TICKET_STATE_RECVD_EXT))
+            if (sendsNewSessionTicket(ssl))
             {
                 rc = writeNewSessionTicket(ssl, out);
             }
@@ -3965,11 +3992,35 @@ static int32 writeNewSessionTicket(ssl_t *ssl, sslBuf_t *out)
     }
 
     rc = (int32) (end - c);
+#   ifdef USE_DTLS
+    if (ACTV_VER(ssl, v_dtls_any) && ssl->retransmit == 1 &&
+        ssl->sid->sessionTicket != NULL)
+    {
+        /* Same message as the first time: the handshake hash has it */
+        rc = ssl->sid->sessionTicketLen;
+        Memcpy(c, ssl->sid->sessionTicket, rc);
+    }
+    else
+#   endif
     if (matrixCreateSessionTicket(ssl, c, &rc) < 0)
     {
         psTraceErrr("Error generating session ticket\n");
         return MATRIXSSL_ERROR;
     }
+#   ifdef USE_DTLS
+    if (ACTV_VER(ssl, v_dtls_any) && ssl->retransmit == 0)
+    {
+        /* Keep the message for retransmissions of this flight */
+        psFree(ssl->sid->sessionTicket, ssl->sid->pool);
+        ssl->sid->sessionTicketLen = 0;
+        if ((ssl->sid->sessionTicket = psMalloc(ssl->sid->pool, rc)) == NULL)
+        {
+            return SSL_MEM_ERROR;
+        }
+        Memcpy(ssl->sid->sessionTicket, c, rc);
+        ssl->sid->sessionTicketLen = rc;
+    }
+#   endif
     c += rc;
 
     if ((rc = postponeEncryptRecord(ssl, SSL_RECORD_TYPE_HANDSHAKE,
